@@ -14,7 +14,7 @@ use std::collections::BTreeSet;
 pub const NAMES: &[&str] = &[
     "a.rs", "b.RS", "c.rsx", "d.rs.bak", "e", "f.tar.rs", ".hidden.rs", "g.rs~", "rs", "sp ace.rs", "ünï.rs", "日本.rs", "h.Rs", "i.rs.", "j.txt", ".rs.swp", "k.r", "l.rss", "m.rsx.rs", "n.RSX",
 ];
-pub const DIRS: &[&str] = &["", "sub", "sub/deep", "sub/deep/er", "x.rs", "other", "sp ace", "sub/x.rs/in"];
+pub const DIRS: &[&str] = &["", "sub", "sub/deep", "sub/deep/er", "x.rs", "other", "sp ace", "sub/x.rs/in", "a/b/c/d/e/f/g/h/i/j", ".hidden_dir", "ünï/日本"];
 
 #[derive(Clone, Debug, PartialEq, Eq, Hash, Serialize, Deserialize)]
 pub enum Entry15
